@@ -7,7 +7,9 @@ package handler
 // touches no promise; an admitted request is served exactly once and reports exactly
 // one of Pass/Fail by the time ServeHTTP returns or panics (otherwise the shedder's
 // in-flight count could never return to zero). Which outcome maps to Pass and which
-// to Fail is recorded in the evidence, not asserted (the statement does not fix it).
+// to Fail is recorded in the evidence, not asserted (the statement does not fix it);
+// asserted is only that the report is a function of the request's own outcome:
+// identical downstream behaviour => identical report, whatever earlier requests did.
 
 import (
 	"fmt"
@@ -103,6 +105,8 @@ func TestVerifC09SheddingHandler(t *testing.T) {
 	n := vk.N(3000, 60000)
 	r := m.Rand("http")
 	mapping := map[string]int64{}
+	verdict := map[string]string{} // downstream behaviour -> first observed report
+	prev := "none"
 	var rejected, admitted, panics int64
 	// nil shedder: the middleware must be a pass-through
 	{
@@ -159,8 +163,17 @@ func TestVerifC09SheddingHandler(t *testing.T) {
 				out = "fail"
 			}
 			mapping[fmt.Sprintf("admitted_%s_%s", kind, out)]++
+			// the report must be a function of the request's own outcome: the same
+			// downstream behaviour may not be reported differently depending on earlier requests
+			if first, seen := verdict[kind]; !seen {
+				verdict[kind] = out
+			} else if first != out && sh.passes+sh.fails == 1 {
+				m.Violate("C09:http:report-depends-on-earlier-request", desc, "downstream behaviour %s was reported as %s by earlier identical requests and as %s now (previous request: %s)", kind, first, out, prev)
+				bad = true
+			}
 		}
 		m.Case(vk.Digest(admit, kind), !bad)
+		prev = desc
 		if m.WantSample() && idx%7 == 1 {
 			m.Sample(map[string]any{"scenario": desc, "allow_calls": sh.allows, "downstream_runs": served, "pass": sh.passes, "fail": sh.fails, "status": rec.Code, "panicked": panicked})
 		}
